@@ -5,6 +5,7 @@ fn main() {
   let args: Vec<String> = std::env::args().skip(1).collect();
   let r = std::panic::catch_unwind(move || match args.first().map(|s| s.as_str()) {
     Some("ops") => dmntk_server::verif_server_ops(&args[1..]),
+    Some("tck") => dmntk_server::verif_tck(&args[1]),
     _ => "?".to_string(),
   });
   match r {
